@@ -160,3 +160,34 @@ def list_alt_problems(field):
         if (pol == 1) != a_tok:
             out.append('the preference tokens are written when %s is EMPTY and left out when it has entries (condition %s)' % (show(lst)[:40], show(x.cond)[:60]))
     return out
+
+
+def stale_line_fields(wf):
+    """fields of an agent's line whose text reads a variable CARRIED by the loop over the agents (set in an earlier iteration,
+    not in this one): the line of agent x then shows what an earlier agent left behind.  -> [(line index, field index, name)]"""
+    from .absint import iter_effects
+    lids = {}
+    for e, _ in iter_effects(wf.ci_effs):          # the lines are read off create_instance's own interpretation
+        if e.kind == 'for':
+            lids[e.binder] = e.lid
+    def terms(items):
+        for x in items:
+            if isinstance(x, doc.Hole):
+                yield x.term
+            elif isinstance(x, doc.Alt):
+                yield x.cond
+                yield from terms(x.a)
+                yield from terms(x.b)
+            elif isinstance(x, doc.Rep):
+                yield from terms(x.items)
+    out = []
+    for li, ln in enumerate(wf.lines):
+        if not ln.chain:
+            continue
+        own = {lids.get(b) for b, _ in ln.chain} - {None}
+        for k, f in enumerate(doc.fields_of(ln)):
+            for t in terms([y for y in f if not isinstance(y, str)]):
+                for x in walk(t):
+                    if x[0] in ('carried', 'prefix') and x[2] in own and (li, k, x[1]) not in out:
+                        out.append((li, k, x[1]))
+    return out
